@@ -3,6 +3,9 @@
 // Every line is one scenario realised as a REAL handshake between a zcrypto client and a zcrypto server (tlsrig):
 //
 //	c27 hs <ver> <suite> <key> <kex> <server scenario> <skipVerify> <ClientAuthType> <client scenario> <i>
+//	c27 name <ver> <ServerName form> <certificate kind> <skipVerify> <i>                 (names.go)
+//	c27 res <ver> <server cert> <first client cfg> <second client cfg> <cache> <i>       (resume.go: two connections, one session cache)
+//	c27 sres <ver> <client cert> <first server cfg> <second server cfg> <i>              (resume.go: two connections, one ticket key)
 //
 // T2: the outcome (client completes / server completes) is compared with the decision computed by the Lean model of
 // the acceptance predicates (ZV.Model.C27).  T3 states the property directly and independently of the model: with
@@ -195,6 +198,16 @@ func okStr(b bool) string {
 
 func exec(line string) zv.Out {
 	f := strings.Fields(line)
+	if len(f) > 1 {
+		switch f[1] {
+		case "name":
+			return execName(f)
+		case "res":
+			return execRes(f)
+		case "sres":
+			return execSRes(f)
+		}
+	}
 	if len(f) != 11 || f[1] != "hs" {
 		return zv.Out{Go: "bad-op"}
 	}
@@ -276,6 +289,9 @@ func gen(g *zv.Gen) {
 	}
 	srvScens := []string{"trusted", "untrusted", "expired", "wrongname", "wrongkey", "corruptsig"}
 	cliScens := []string{"none", "trusted", "untrusted", "expired", "wrongkey", "corruptcv"}
+	// ServerName spellings x certificates that do / do not list the name; two-connection sequences (resumption)
+	genNames(g)
+	genResume(g)
 	reps := g.N(1, 6)
 	for rep := 0; rep < reps; rep++ {
 		for ci, c := range combos {
@@ -319,5 +335,5 @@ func gen(g *zv.Gen) {
 
 func init() {
 	zv.Register(&zv.Prop{ID: "C27", Topic: "c27", Gen: gen, Exec: exec, Timeout: 20 * time.Second,
-		Rule: "one real zcrypto client/server handshake per scenario: (TLS 1.0-1.3 x RSA / ECDHE-RSA / ECDHE-ECDSA / DHE / TLS 1.3 x rsa, ecdsa P-256/P-384, ed25519 keys) x server scenario (trusted, untrusted root, expired via Config.Time or an expired leaf, wrong name, wrong private key, corrupted ServerKeyExchange signature) x InsecureSkipVerify x ClientAuthType 0..4 x client scenario (none, trusted, untrusted, expired, wrong private key, corrupted CertificateVerify); a case is one distinct scenario line"})
+		Rule: "one real zcrypto client/server handshake per scenario: (TLS 1.0-1.3 x RSA / ECDHE-RSA / ECDHE-ECDSA / DHE / TLS 1.3 x rsa, ecdsa P-256/P-384, ed25519 keys) x server scenario (trusted, untrusted root, expired via Config.Time or an expired leaf, wrong name, wrong private key, corrupted ServerKeyExchange signature) x InsecureSkipVerify x ClientAuthType 0..4 x client scenario (none, trusted, untrusted, expired, wrong private key, corrupted CertificateVerify); a case is one distinct scenario line; name: Config.ServerName written in 20 forms (DNS name, upper case, one / two trailing dots, sub-domain, unrelated name, IPv4, bracketed / dotted / v4-mapped IPv4, IPv6 short / long / bracketed, link-local with and without zone, bracketed zone, unlisted addresses, empty) x 5 certificates chaining to the configured roots that list the DNS name / the addresses / both / neither / a wildcard, TLS 1.2 and 1.3 (thorough: 1.0-1.3), verification on (and off for one certificate); T3 from the actual strings and certificate contents: completes only if listed under the most liberal reading, plain spellings that are listed must be accepted; res: two client connections through ONE ClientSessionCache (keyed, or one slot ignoring the key) to one server (ticket / PSK), the first made by a configuration that is InsecureSkipVerify with the right / other / no roots, or verifying with other roots / both roots / another ServerName / a later clock, the second by a verifying configuration (right roots, other roots, clock past a short-lived leaf, other name) or a non-verifying one, x server certificate (trusted, other root, other name, both names, short-lived), TLS 1.0-1.3: core product always, the rest sampled (thorough: full product); T3: the second connection completes only if the Go standard library verifies the server's actual chain for THAT configuration's roots, clock and name, and is not refused if it does; sres: two connections to servers sharing a ticket key whose ClientAuthType / ClientCAs / clock differ (first non-verifying 0-2, second verifying 3-4 as core; all 15x15 pairs sampled) x client certificate (none, trusted, other root, short-lived): the second server completes only with a certificate that verifies for ITS configuration"})
 }
